@@ -39,6 +39,8 @@ def cells(tier):
     out.append(cell("s2 M2/1 allbad,A1 fault0|flush,M1/1,A1 (empty groups)", sc, MON))
     sc = scen(pool(2, "SimpleTaskPool"), [[S("S", 0), FLUSH, S("T", 1)]], outcomes=["ret"])
     out.append(cell("simple s2 S0,flush,T1 (empty groups)", sc, MON))
+    sc = scen(pool(2), [[A("A", 1, name="two words"), M("N", 1, 1, stars=1, name="a  b")], [M("M", 1, 1, name=" lead")]], outcomes=["ret"])
+    out.append(cell("s2 explicit names containing whitespace (apply, map, starmap, doublestarmap)", sc, MON))
     sc = scen(pool(1), [[A("X", 1)], [A("A", 2), cgroup("A"), A("B", 2), cgroup("B"), A("C", 1)]], outcomes=["ret"])
     out.append(cell("s1 X1|A2,cgroupA,B2,cgroupB,C1 (generated name re-used twice at once)", sc, MON))
     for size in [1, 2]:
